@@ -120,6 +120,10 @@ class Script:
         if k == "strs":
             n = r.choice([0, 1, 2, 3])
             return {"strs": [self.bytes_value(t[1]) for _ in range(n)], "null": n == 0 and r.random() < 0.5}
+        if k == "cb" and len(t) > 4:
+            # kept by the holder: invoked by later `invoke` calls (appended to "inv" as the script grows), released with the holder
+            self.cb_counter += 1
+            return {"cb": self.cb_counter, "inv": [], "destructor": True, "null_data": r.random() < 0.3, "held": True}
         if k == "cb":
             self.cb_counter += 1
             ninv = r.choice([0, 1, 1, 2, 3])
@@ -350,8 +354,19 @@ class Script:
         lines.append(("R", "CALL %s#%d%s" % (m.abi_name, n, "".join(" " + a for a in cargs))))
         effects = []
         from emit_rust import value_expr, rust_ident
+        if getattr(m, "special", None) == "invoke":
+            # one invocation of the callback the holder keeps
+            hobj = self.objs[args["self"]]
+            ht = owner.holder
+            cargs_v = [self.value(a, "cbarg") for a in ht[1]]
+            cret = None if ht[2] == ("unit",) else self.value(ht[2], "cbret")
+            j = len(hobj.cb["inv"])
+            hobj.cb["inv"].append((cargs_v, cret))
+            lines.append(("C", "CB %d#%d%s" % (hobj.cb["cb"], j, "".join(" " + self.canon(a, av) for a, av in zip(ht[1], cargs_v)))))
+            lines.append(("R", "CBRET %s" % ("()" if ht[2] == ("unit",) else self.canon(ht[2], cret))))
+            effects.append("let vf_r = (self.held)(%s); crate::vf::log(format!(\"CBRET {}\", crate::vf::c(&vf_r)));" % ", ".join(cbarg_expr(self.prog, a, av) for a, av in zip(ht[1], cargs_v)))
         for pn, pt in m.params:
-            if pt[0] == "cb":
+            if pt[0] == "cb" and not args[pn].get("held"):
                 cbv = args[pn]
                 for j, (cargs_v, cret) in enumerate(cbv["inv"]):
                     lines.append(("C", "CB %d#%d%s" % (cbv["cb"], j, "".join(" " + self.canon(a, av) for a, av in zip(pt[1], cargs_v)))))
@@ -383,8 +398,11 @@ class Script:
         # parameters it calls through &mut (FnMut callbacks, traits with a &mut self method), which makes them locals
         rebound = lambda pt: (pt[0] == "cb" and pt[3]) or (pt[0] == "tr" and any(mm for _, mm, _, _ in pt[2]))
         drop_order = [x for x in reversed(m.params) if rebound(x[1])] + [x for x in reversed(m.params) if not rebound(x[1])]
+        for pn, pt in m.params:
+            if pt[0] == "cb" and args[pn].get("held"):
+                created[0].cb = args[pn]              # the new holder owns it from here on
         for pn, pt in drop_order:
-            if pt[0] in ("cb", "tr") and args[pn]["destructor"]:
+            if pt[0] in ("cb", "tr") and args[pn]["destructor"] and not args[pn].get("held"):
                 lines.append(("C", "CBDROP %d" % args[pn]["cb"]))
         wparams = [args[pn] for pn, pt in m.params if pt[0] == "write"]
         if self.lang in ("cpp", "js") and wparams:
@@ -441,8 +459,11 @@ class Script:
         if self.lang == "js":
             return                      # no explicit destruction in JS: the FinalizationRegistry decides (checked separately)
         o.alive = False
-        self.steps.append({"kind": "destroy", "obj": o, "expect": [("R", "DROP %s#%d" % (o.ty, o.id))]})
-        self.expected.append("DROP %s#%d" % (o.ty, o.id))
+        exp = [("R", "DROP %s#%d" % (o.ty, o.id))]
+        if getattr(o, "cb", None) and o.cb["destructor"]:
+            exp.append(("C", "CBDROP %d" % o.cb["cb"]))          # Drop::drop of the holder logs first, then its fields go
+        self.steps.append({"kind": "destroy", "obj": o, "expect": exp})
+        self.expected += [l for _, l in exp]
 
     def build(self, ncalls):
         prog, r = self.prog, self.r
@@ -459,8 +480,13 @@ class Script:
         r.shuffle(order)
         while len(order) < ncalls:
             order.append(r.choice(callable_methods))
+        holders = [(t, [m for m in t.methods if getattr(m, "special", None) == "invoke"][0]) for t in opaques if getattr(t, "holder", None)]
         for t, m in order:
             self.call(t, m)
+            if holders and r.random() < 0.3:
+                ht, hm = r.choice(holders)
+                if any(o.alive and o.ty == ht.name for o in self.objs):
+                    self.call(ht, hm)
             if r.random() < 0.12:
                 cands = [o for o in self.objs if o.alive and o.owned and sum(1 for x in self.objs if x.alive and x.ty == o.ty) > 1]
                 if cands:
